@@ -64,6 +64,7 @@ structure OsvAdvisory where
   dbSeverity : Option String  -- database_specific.severity when it decodes as a string
   refs : List String
   affected : List OsvAffected
+  published : String := ""    -- `published` as canonical time ("" = absent)
 deriving Repr
 
 /-- The five ecosystems `Insert` knows by name. -/
@@ -262,7 +263,7 @@ def osvRange (eco : OsvEcosystems) (proto : Vuln) (af : OsvAffected) (r : OsvRan
   if mode = .error ∧ ¬ r.events.isEmpty then none else
   let known := eco.known af.ecosystem
   let proto := { proto with hasPkg := true, pkgName := if known then af.name else af.purl,
-                            pkgKind := if known then "binary" else "" }
+                            pkgKind := if known then "binary" else "", pkgHint := af.ecosystem }
   some ((runEvents mode af.hasVersions {} r.events).vers.filterMap (cellVuln eco proto af.ecosystem))
 
 def osvRanges (eco : OsvEcosystems) (proto : Vuln) (af : OsvAffected) : List OsvRange → Option (List Vuln)
@@ -289,18 +290,36 @@ def osvInsert (eco : OsvEcosystems) (dbSev : String → Nat) (uris : List (Strin
   if gitOnly a then some [] else
   let sv := osvSeverity dbSev a
   let proto : Vuln := { updater := updater, name := a.id, desc := a.summary, links := " ".intercalate a.refs,
-                        sev := sv.1, nsev := sv.2, repo := osvRepoKey uris repoName }
+                        sev := sv.1, nsev := sv.2, repo := osvRepoKey uris repoName, issued := a.published }
   osvAffecteds eco proto a.affected
 
 /-- `Parse` over the advisories of one ecosystem dump: withdrawn (in the past)
-    and advisories without `affected` are skipped; an `Insert` error aborts. -/
-def osvParse (eco : OsvEcosystems) (dbSev : String → Nat) (uris : List (String × String))
+    and advisories without `affected` are skipped; an `Insert` error aborts.
+    Every vulnerability still carries its own affected entry's ecosystem as
+    `pkgHint` here; see `shareHints`. -/
+def osvParseRaw (eco : OsvEcosystems) (dbSev : String → Nat) (uris : List (String × String))
     (updater repoName : String) : List OsvAdvisory → Option (List Vuln)
   | [] => some []
   | a :: rest =>
-    if a.withdrawnPast ∨ a.affected.isEmpty then osvParse eco dbSev uris updater repoName rest
+    if a.withdrawnPast ∨ a.affected.isEmpty then osvParseRaw eco dbSev uris updater repoName rest
     else match osvInsert eco dbSev uris updater repoName a with
       | none => none
-      | some vs => (osvParse eco dbSev uris updater repoName rest).map (vs ++ ·)
+      | some vs => (osvParseRaw eco dbSev uris updater repoName rest).map (vs ++ ·)
+
+/-- `LookupPackage`: the `claircore.Package` records of one `Parse` are shared
+    by name (the version part of the key is always empty), and
+    `RepositoryHint` is written when the record is created (osv.go as fixed:
+    `novel` used to be the map's "found" flag, so the hint was only written on a
+    later lookup).  So every vulnerability shows the ecosystem of the FIRST
+    returned vulnerability with the same package name. -/
+def shareHints (vs : List Vuln) : List Vuln :=
+  vs.map fun v =>
+    match vs.find? (fun w => w.pkgName == v.pkgName) with
+    | some w => { v with pkgHint := w.pkgHint }
+    | none => v
+
+def osvParse (eco : OsvEcosystems) (dbSev : String → Nat) (uris : List (String × String))
+    (updater repoName : String) (advs : List OsvAdvisory) : Option (List Vuln) :=
+  (osvParseRaw eco dbSev uris updater repoName advs).map shareHints
 
 end ClairModel.Feeds
